@@ -39,9 +39,24 @@ def run(ctx) -> None:
         return any(c is eng for c in res.receiver_classes(e, f))
 
     # ---- R09a
-    for f in funcs:
-        g = cfg_of(f)
-        sites = []
+    funcs = funcs + list(impl.functions.values())
+
+    def clears(x) -> bool:
+        if x.kind != "stmt":
+            return False
+        for t, v, st in assigned_attrs(x.ast):
+            if t.attr == "_prev_state" and isinstance(v, ast.Constant) and v.value is None:
+                return True
+        return False
+
+    def is_entry(f) -> bool:
+        # what the command scheduler / the engine's own API invokes; anything else is a helper whose callers are checked
+        return (f.cls is not None and f.cls.module is impl and f.name in ("_run", "cancel")) or f.cls is eng
+
+    leaky: dict[int, object] = {}      # helpers that end a pause / cross a run boundary and leave the capture: id(node) -> FuncInfo
+
+    def sites_of(f, g):
+        out = []
         for n in g.nodes:
             if n.kind != "stmt":
                 continue
@@ -49,21 +64,15 @@ def run(ctx) -> None:
                 if not is_engine(t.value, f) or not isinstance(v, ast.Constant):
                     continue
                 if (t.attr == "_runstate_paused" and v.value is False) or t.attr == "_runstate_started":
-                    sites.append((n, t.attr, v.value))
-        if not sites or f.name == "__init__":
-            continue
-        ctx.analysed(f)
+                    out.append((n, t.attr, f"`{n.text()}`"))
+            for c in n.calls():
+                for callee in res.resolve_call(c, f, cha=False):
+                    if id(callee.node) in leaky:
+                        out.append((n, "_runstate_paused", f"`{n.text()[:60]}` (which ends the pause in {callee.short})"))
+        return out
 
-        def clears(x) -> bool:
-            if x.kind != "stmt":
-                return False
-            for t, v, st in assigned_attrs(x.ast):
-                if t.attr == "_prev_state" and isinstance(v, ast.Constant) and v.value is None:
-                    return True
-            return False
-        worst = None
-        for (n, attr, val) in sites:
-            # a clear before (dominating) or after on all paths
+    def worst_site(f, g, sites):
+        for (n, attr, what) in sites:
             yields = [y for y in g.nodes if y.kind == "stmt" and isinstance(y.ast, ast.Expr) and isinstance(y.ast.value, (ast.Yield, ast.YieldFrom))]
 
             def same_segment(x, n=n) -> bool:
@@ -86,17 +95,41 @@ def run(ctx) -> None:
                 p = g.search([n.id], lambda x: x.id == g.exit.id, blocked=lambda x, n=n: x.id != n.id and clears(x),
                              blocked_edge=none_edge, follow_exc=False)
                 after = p is None
-            if not (before or after) and worst is None:
-                worst = (n, attr)
+            if not (before or after):
+                return (n, attr, what)
+        return None
+
+    for _round in range(3):     # helpers first: a leaking helper turns its call sites into sites of the callers
+        grew = False
+        for f in funcs:
+            if is_entry(f) or f.name == "__init__" or id(f.node) in leaky:
+                continue
+            g = cfg_of(f)
+            st = sites_of(f, g)
+            if st and worst_site(f, g, st) is not None:
+                leaky[id(f.node)] = f
+                grew = True
+        if not grew:
+            break
+    for f in funcs:
+        if not is_entry(f) or f.name == "__init__":
+            continue
+        g = cfg_of(f)
+        sites = sites_of(f, g)
+        if not sites:
+            continue
+        ctx.analysed(f)
+        worst = worst_site(f, g, sites)
         inst = f"{f.short} ends a pause / crosses a run boundary and clears or consumes _prev_state"
         if worst is None:
             ctx.ok("R09a", inst, {"rule": "R09a", "function": f.short, "sites": [n.text() for n, _, _ in sites]})
         else:
-            n, attr = worst
+            n, attr, desc = worst
             what = "ends the pause" if attr == "_runstate_paused" else "crosses a run boundary"
-            ctx.fail("R09a", f, n.ast, inst, f"`{n.text()}` {what} but the output values captured by an earlier Pause stay in "
+            ctx.fail("R09a", f, n.ast, inst, f"{desc} {what} but the output values captured by an earlier Pause stay in "
                      f"_prev_state: a later Unpause (e.g. after an error pause in the next run) restores values from before an "
                      f"already-undone pause / an earlier run")
+    ctx.extra["helpers_ending_a_pause_without_clearing"] = [f.short for f in leaky.values()]
     ctx.floor("R09a", 4)
     # ---- R09b
     pause = impl.classes["PauseEngineCommand"].methods["_run"]
